@@ -9,6 +9,7 @@ import (
 	"encoding/hex"
 	"encoding/json"
 	"fmt"
+	"math"
 	"math/rand/v2"
 	"os"
 	"os/exec"
@@ -223,12 +224,14 @@ const vfBigK = 1 << 20
 // vfStoreFind reports through which modalities a document is found (nil error expected).
 func vfStoreFind(st HybridSearchIndex, c *vfStoreConf, id uint32, d *vfStoreDoc) (byVec, byText, byMeta bool, all map[uint32]bool, err error) {
 	all = map[uint32]bool{}
+	var ownScore float64
 	collect := func(res []HybridSearchResult) bool {
 		found := false
 		for _, r := range res {
 			all[r.ID] = true
 			if r.ID == id {
 				found = true
+				ownScore = r.Score
 			}
 		}
 		return found
@@ -239,6 +242,17 @@ func vfStoreFind(st HybridSearchIndex, c *vfStoreConf, id uint32, d *vfStoreDoc)
 			return false, false, false, all, fmt.Errorf("vector query: %w", e)
 		}
 		byVec = collect(res)
+		// "found by its vector": the document is returned at distance 0 from its own vector (a
+		// vector-only query reports the distance), i.e. the vector that was stored is the one added
+		if byVec {
+			tol := 1e-5
+			if DistanceKind(c.Metric) != Cosine {
+				tol = 1e-5 * (1 + vfRefL2Sq(d.Vec, make([]float32, len(d.Vec))))
+			}
+			if math.IsNaN(ownScore) || math.Abs(ownScore) > tol {
+				return false, false, false, all, fmt.Errorf("vector query with document %d's own vector reports it at distance %v, want 0 (another vector was stored or reloaded for it)", id, ownScore)
+			}
+		}
 	}
 	if c.HasText {
 		res, e := st.NewSearch().WithText(fmt.Sprintf("tok%d", d.N)).WithK(vfBigK).Execute()
